@@ -132,6 +132,33 @@ def boundary_molecules(rng, n_random, tier='quick'):
         out.append(('ct-shared', m))
         for _ in range(1 if tier == 'quick' else 4):
             out.append(('ct-shared', corpus.renumber(m, rng)))
+    # ATOM STEREO, every kind x BOTH signs: tetrahedral centres and allene centres (the 4 bit field has a tetrahedron pair and an
+    # allene pair), every combination of marks on templates with one or two centres, a renumbered copy of each (renumbering
+    # changes the neighbour order the sign refers to), and the mirror image (every atom label inverted) of each
+    st_templates = ['FC(Cl)=[C%]=C(Br)I', 'CC=[C%]=CC', 'C[C%H](N)O', '[C%H](F)(Cl)Br', 'C[C%H](F)C=[C%]=CC', 'N[C%](C)(F)C=[C%]=C(Cl)Br',
+                    'CC=[C%]=C(C)C(C)=[C%]=CC', 'C[C%H](N)[C%H](O)F', 'C[N+%](CC)(CCC)CCCC', 'C[C%]1(F)CC1(Cl)Br', 'OC=[C%]=C/C=C/[C%H](C)N']
+    for t in st_templates:
+        k = t.count('%')
+        for marks in itertools.product(('@', '@@'), repeat=k):
+            it = iter(marks)
+            sm = ''.join(next(it) if ch == '%' else ch for ch in t)
+            try:
+                m = smiles(sm)
+            except Exception:
+                continue
+            if not any(a._stereo is not None for a in m._atoms.values()):
+                continue
+            out.append(('atom-stereo', m))
+            if tier != 'quick' or marks == ('@@',) * k:
+                out.append(('atom-stereo', corpus.renumber(m, rng)))
+    for kind, m in list(out):
+        if kind in ('seed', 'ct-generated') and any(a._stereo is not None for a in m._atoms.values()):
+            mm = m.copy()
+            for a in mm._atoms.values():
+                if a._stereo is not None:
+                    a._stereo = not a._stereo
+            mm.flush_cache()
+            out.append(('atom-stereo', mm))
     # version 0 order block = groups of five bonds: bond counts 0, 5, 10, 15 (and 4, 6), with and without cis/trans labels
     for sm in ('C', '[Na+]', 'CCCCCC', 'C/C=C/CCC', 'C/C=C\\C=C/C', 'CCCCCCCCCCC', 'C/C=C/CCCCCCCC', 'CC(C)(C)c1ccccc1', 'C/C=C/c1ccccc1CC', 'CCCCCCCCCCCCCCCC',
                'CCCCC', 'C/C=C/CCCC', 'O.O'):
@@ -217,6 +244,9 @@ def corr(ck, unpack_mod, mols):
         ck.count('mol:' + kind)
         ck.count(f'bonds_mod8={m.bonds_count % 8}')
         ck.count(f'cis_trans={min(m._cis_trans_count, 3)}')
+        for n, a in m._atoms.items():
+            if a._stereo is not None:
+                ck.count(f'atom_stereo:{"allene" if len(m._bonds[n]) == 2 else "tetrahedron"}:{a._stereo}')
         pm = pmol_term(m, data)
         cases.append(f'pyres_eqb (list_eqb Z.eqb) (pack {pm}) (Ok {lst(list(data), zraw)})')
         meta.append(('pack', kind, mstr(m)))
@@ -617,6 +647,24 @@ def corr_malformed(ck, unpack_mod, mols, rng):
                 if e2:
                     cases.append(f'pyres_eqb Z.eqb (mol_pack_len {lst(list(bb[:6]), zraw)}) ({e2})')
                     meta.append(('pack_len-header', mstr(m), i, bb[i]))
+    # EVERY value of the 4 bit atom stereo field on an atom with two neighbours (allene centre) and on one with four
+    # (tetrahedron): the decoder's if / elif chain incl. its else branch against the model, 16 x 2 packs
+    from chython import smiles as _smi
+    for sm, pos in (('CC=C=CC', 2), ('CC(N)(O)F', 1)):
+        b0 = bytes(_smi(sm).pack(compressed=False))
+        for nib in range(16):
+            bb = bytearray(b0)
+            bb[4 + 9 * pos + 2] = (bb[4 + 9 * pos + 2] & 0x0f) | nib << 4
+            bb = bytes(bb)
+            ck.case(('stereo-nibble', sm, nib))
+            ck.count('malformed:stereo-nibble')
+            try:
+                mol2, ct2, size2 = unpack_mod.unpack(bb)
+                exp = f'Ok {unpacked_term(mol2, ct2, size2, bb)}'
+            except (IndexError, KeyError) as e:
+                exp = f'Err {type(e).__name__}'
+            cases.append(f'pyres_eqb unpacked_eqb (unpack {lst(list(bb), zraw)}) ({exp})')
+            meta.append(('stereo-nibble', sm, nib))
     # every bit of the 12 bit cis/trans count of the header, with enough (arbitrary) records behind a valid pack: counts
     # above 2047 cannot come from a molecule with at most 4095 atoms, the model and the theorems cover them nevertheless
     from chython import smiles
@@ -896,7 +944,7 @@ def corr_top(ck, mols, rng):
             cases.append(f'mol_is_err {zl(data)} {r3}')
             meta.append(('mol-err', tag))
 
-    picked = [(k, m) for k, m in mols if k in ('seed', 'numbers', 'chain', 'ct-generated', 'ct-shared', 'v0-groups') and len(m) <= 40]
+    picked = [(k, m) for k, m in mols if k in ('seed', 'numbers', 'chain', 'ct-generated', 'ct-shared', 'v0-groups', 'atom-stereo') and len(m) <= 40]
     if ck.tier == 'quick':
         picked = picked[::max(1, len(picked) // 36)]
     v0 = {}
